@@ -136,7 +136,8 @@ Init ==
   \/ /\ Law = "extend"
      /\ DayNo[PrefixDays + 1] - DayNo[PrefixDays] > 30
      /\ \E g \in BaseLedgers,
-           spl \in {NoSplits} \cup {[d \in Days |-> IF d = x THEN k ELSE 0] : x \in (PrefixDays + 1)..N, k \in SplitKinds},
+           \* one split anywhere: among the later transactions, or inside the prefix (also on a day the prefix trades)
+           spl \in {NoSplits} \cup {[d \in Days |-> IF d = x THEN k ELSE 0] : x \in Days, k \in SplitKinds},
            ev \in {[d \in Days |-> 0]} \cup {[d \in Days |-> IF d = e THEN k ELSE 0] : e \in 1..PrefixDays, k \in EventKinds} :
           LET l == [t \in Secs |-> SecLedgerEv(t, g, spl, ev)]
               pl == Prefix(l, PrefixDays)
